@@ -24,7 +24,7 @@ fn root() -> PathBuf {
 }
 
 /// `cargo build -p ddnnife_bin --features verif` of the repo's current tree
-fn build_binary() -> Result<PathBuf, String> {
+pub fn build_binary() -> Result<PathBuf, String> {
     // one target directory per source tree: cargo's freshness test does not notice that the same
     // workspace is now read from another path
     let tag: String = repo().chars().map(|c| if c.is_ascii_alphanumeric() { c } else { '_' }).collect();
